@@ -173,10 +173,16 @@ impl Property for Prop {
                 let tfp = fnv(&t.pkts.concat());
                 if gen == "bits" {
                     for pi in 0..n {
+                        if crate::expired() {
+                            return;
+                        }
                         let plen_b = t.pkts[pi].len();
                         let prot = t.protected[pi].clone();
                         // single bit flips
                         for bit in 0..plen_b * 8 {
+                            if bit % 16 == 0 && crate::expired() {
+                                return;
+                            }
                             let mut pk = t.pkts.clone();
                             pk[pi][bit / 8] ^= 0x80 >> (bit % 8);
                             let inside = prot.contains(&(bit / 8));
@@ -189,6 +195,9 @@ impl Property for Prop {
                         let lo = prot.start * 8;
                         let hi = prot.end * 8;
                         for start in lo..hi {
+                            if crate::expired() {
+                                return;
+                            }
                             for len in 2..=32usize {
                                 if start + len > hi {
                                     break;
@@ -259,6 +268,9 @@ impl Property for Prop {
                 } else if gen == "totlen" {
                     let cur = u16::from_be_bytes([t.pkts[0][3], t.pkts[0][4]]);
                     for v in 0..=65535u16 {
+                        if v % 64 == 0 && crate::expired() {
+                            return;
+                        }
                         if v == cur {
                             continue;
                         }
